@@ -16,8 +16,9 @@ RoundOK(x, r, base, dir, off, k) ==
       sl == Slack(x, base) IN
   /\ IsInteger(k) /\ base.s = 1
   /\ Near(Sub(r, off), g, Add(sl, Mul(Tol1e12, Abs(r))))
-  /\ CASE dir = "up"      -> LE(Sub(x, sl), g) /\ LT(g, Add(Add(x, base), sl))
-       [] dir = "down"    -> LT(Sub(Sub(x, base), sl), g) /\ LE(g, Add(x, sl))
+  \* slack only on the closed side: a quotient a hair beyond an integer may be computed as that integer
+  /\ CASE dir = "up"      -> LE(Sub(x, sl), g) /\ LT(g, Add(x, base))
+       [] dir = "down"    -> LT(Sub(x, base), g) /\ LE(g, Add(x, sl))
        [] dir = "nearest" -> LE(Mul(FromInt(2), Abs(Sub(x, g))), Add(base, Mul(FromInt(2), sl)))
        [] OTHER -> FALSE
 \* theorem (MC_Round): for the exact k the rounded value is idempotent and within one step
